@@ -132,6 +132,27 @@ func main() {
 		for _, s := range listFuncs(p) {
 			fmt.Println(s)
 		}
+	case "balance":
+		p, err := loadProgram(LoadOpts{})
+		if err != nil {
+			fmt.Println("ERR", err)
+			os.Exit(1)
+		}
+		for _, pp := range []*Program{p, p.V2} {
+			var lines []string
+			for fn := range allFuncs(pp) {
+				if fn.Pkg == nil || !strings.HasPrefix(fn.Pkg.Pkg.Path(), btcdPrefix) {
+					continue
+				}
+				for _, l := range lockBalance(pp, fn) {
+					lines = append(lines, fmt.Sprintf("%s %s read=%v return at %s (acquired %s)", funcName(fn), l.key.mu, l.key.read, pp.pos(l.ret.Pos()), pp.pos(l.lock.Pos())))
+				}
+			}
+			sort.Strings(lines)
+			for _, l := range lines {
+				fmt.Println(l)
+			}
+		}
 	case "fields":
 		p, err := loadProgram(LoadOpts{NoSSA: true})
 		if err != nil {
